@@ -276,6 +276,14 @@ class Engine:
                 keys = z3.Store(keys, n, kv)
             n += 1
         ex.cur_module = saved
+        if name not in self.src.read_only_tables():
+            # a module-level dict that some code may write (or hand to someone who does): it holds whatever earlier
+            # calls left in it, not what the source text says
+            ex.event('mutable_module_dict', module, name)
+            ex.assume(z3.Select(ex.base_array('DLEN'), ref) >= 0)
+            ex.global_refs = getattr(ex, 'global_refs', {})
+            ex.global_refs[(module, name)] = ref
+            return L.DictV(ref)
         # the global object is pristine in the pre-state (TSI-4 keeps it so)
         ex.assume(z3.Select(ex.base_array('DHAS'), ref) == has)
         ex.assume(z3.Select(ex.base_array('DVAL'), ref) == val)
